@@ -1,6 +1,6 @@
 (* Run.C17 — driver for the generated correspondence cases of C17. *)
 From Coq Require Import String List Bool Arith.
-From JMCV Require Import Model.Import Run.Common.
+From JMCV Require Import Model.Import Model.ImportPath Run.Common.
 Import ListNotations.
 
 (* what the harness observed on the real compile of the project *)
@@ -18,7 +18,9 @@ Inductive robs :=
 
 Record case := mkCase {
   c_mode : mode;
-  c_tree : tree; c_dirs : dirs; c_cwd : apath; c_mabs : bool; c_mraw : list comp;
+  c_tree : tree;                 (* round 4: written by the harness as `lower_tree <project as text>`: import statements are STRINGS *)
+  c_fs : fsys;                   (* round 4: every file and folder found below the temporary root *)
+  c_dirs : dirs; c_cwd : apath; c_mabs : bool; c_mraw : list comp;
   c_alloc : list nat;
   c_watch : list nat;            (* ids of the load statements whose file is observable in the output *)
   c_bad : list nat;              (* ids of the load statements that do not compile *)
@@ -88,7 +90,9 @@ Definition robs_eqb (a b : robs) : bool :=
   | _, _ => false
   end.
 
-Definition case_ok (c : case) : bool := robs_eqb (model_obs c) (c_real c).
+(* round 4: the listings handed to the model describe the directory tree found on disk (hypothesis `listing_ok` of
+   C17_wildcard_exact_files, by C17_listing_check_sound) *)
+Definition case_ok (c : case) : bool := robs_eqb (model_obs c) (c_real c) && listing_okb (c_fs c) (c_dirs c).
 Definition mismatches (l : list case) : list nat := bad_indices case_ok l.
 
 (* the specification side, for the cross-check "harness flatten = Coq flatten" *)
